@@ -2,8 +2,23 @@
 From GixV.Base Require Import Bytes BytesFacts Outcome.
 From GixV.C15 Require Import Model Spec ProofsLoop ProofsValid ProofsGit ProofsSan.
 
-Lemma L_partial_name_is_git : forall s, is_ok (ref_name_partial s) = git_check s true.
-Proof. intros s. rewrite git_check_valid, Bool.andb_true_r. exact (proj1 (ref_name_partial_ok s)). Qed.
+Lemma git_partial_tag s : git_check s true = valid_tag s && negb (standalone_at s).
+Proof. rewrite git_check_valid, Bool.andb_true_r. reflexivity. Qed.
+
+Lemma L_partial_name_vs_git : forall s, is_ok (ref_name_partial s) = git_check s true || standalone_at s.
+Proof.
+  intros s. rewrite (proj1 (ref_name_partial_ok s)), git_partial_tag.
+  destruct (standalone_at s) eqn:E.
+  - unfold standalone_at in E. apply bytes_eqb_eq in E. subst s. reflexivity.
+  - cbn [negb]. rewrite Bool.andb_true_r, Bool.orb_false_r. reflexivity.
+Qed.
+
+Lemma L_partial_name_is_git_refuted : exists s, is_ok (ref_name_partial s) <> git_check s true.
+Proof. exists [at_]. vm_compute. discriminate. Qed.
+
+Lemma L_partial_name_is_git_except_known : forall s, standalone_at s = false ->
+  is_ok (ref_name_partial s) = git_check s true.
+Proof. intros s H. rewrite L_partial_name_vs_git, H. apply Bool.orb_false_r. Qed.
 
 Lemma L_full_name_is_git : forall s, is_ok (ref_name s) = git_full_name s.
 Proof. intros s. rewrite git_full_name_valid. exact (proj1 (ref_name_ok s)). Qed.
@@ -16,12 +31,9 @@ Proof.
   fold (upper_us s). split; intros ->; cbn [orb]; rewrite ?Bool.andb_true_r, ?Bool.andb_false_r; reflexivity.
 Qed.
 
-Lemma L_tag_name_is_git_or_at : forall s, is_ok (tag_name s) = git_check s true || bytes_eqb s [at_].
+Lemma L_tag_name_is_git_or_at : forall s, is_ok (tag_name s) = git_check s true || standalone_at s.
 Proof.
-  intros s. rewrite (proj1 (tag_name_ok s)), git_check_valid, Bool.andb_true_r. unfold valid_partial.
-  destruct (bytes_eqb s [at_]) eqn:E.
-  - apply bytes_eqb_eq in E. subst s. reflexivity.
-  - cbn [negb]. rewrite Bool.andb_true_r, Bool.orb_false_r. reflexivity.
+  intros s. rewrite (proj1 (tag_name_ok s)), <- (proj1 (ref_name_partial_ok s)). apply L_partial_name_vs_git.
 Qed.
 
 Lemma L_validators_total : forall s,
@@ -35,20 +47,36 @@ Proof.
   - exact (proj2 (tag_name_ok s)).
 Qed.
 
+Lemma join_not_at base comp : standalone_at (base ++ slash :: comp) = false.
+Proof.
+  unfold standalone_at. destruct base as [|b base]; [reflexivity|]. cbn [app bytes_eqb].
+  destruct (base ++ slash :: comp) eqn:E; [destruct base; discriminate|]. apply Bool.andb_false_r.
+Qed.
+
 Lemma L_join_is_git : forall base comp,
   is_ok (partial_join base comp) = git_check (base ++ slash :: comp) true.
-Proof. intros. unfold partial_join. apply L_partial_name_is_git. Qed.
+Proof. intros. unfold partial_join. apply L_partial_name_is_git_except_known, join_not_at. Qed.
 
-(* sanitising: total, and the result is accepted by name_partial, i.e. by git *)
+(* sanitising: total, and the result is accepted by name_partial *)
 Lemma L_sanitize_valid : forall s, exists o,
-  ref_sanitize s = Ok o /\ is_ok (ref_name_partial o) = true /\ git_check o true = true.
+  ref_sanitize s = Ok o /\ is_ok (ref_name_partial o) = true.
 Proof.
   intros s. destruct (ref_sanitize_valid s) as (o & E & V). exists o. split; [exact E|].
-  rewrite <- L_partial_name_is_git. rewrite (proj1 (ref_name_partial_ok o)). split; exact V.
+  rewrite (proj1 (ref_name_partial_ok o)). exact V.
 Qed.
 
 Lemma L_sanitize_total : forall s, ref_sanitize s <> Panic /\ ref_sanitize s <> OutOfFuel.
 Proof. intros s. destruct (ref_sanitize_valid s) as (o & E & _). rewrite E. split; discriminate. Qed.
+
+Lemma L_sanitize_git_refuted : exists s o, ref_sanitize s = Ok o /\ git_check o true = false.
+Proof. exists [at_; slash], [at_]. vm_compute. split; reflexivity. Qed.
+
+Lemma L_sanitize_git_except_known : forall s o, ref_sanitize s = Ok o -> standalone_at o = false ->
+  git_check o true = true.
+Proof.
+  intros s o E Hk. destruct (ref_sanitize_valid s) as (o' & E' & V). rewrite E in E'. injection E' as <-.
+  rewrite git_partial_tag, V, Hk. reflexivity.
+Qed.
 
 (* a name that name_partial accepts is returned unchanged by the sanitiser *)
 Lemma L_sanitize_keeps_valid : forall s, is_ok (ref_name_partial s) = true -> ref_sanitize s = Ok s.
@@ -56,6 +84,6 @@ Proof. intros s H. rewrite (proj1 (ref_name_partial_ok s)) in H. exact (ref_sani
 
 Lemma L_sanitize_idempotent : forall s o, ref_sanitize s = Ok o -> ref_sanitize o = Ok o.
 Proof.
-  intros s o E. destruct (L_sanitize_valid s) as (o' & E' & V & _).
+  intros s o E. destruct (L_sanitize_valid s) as (o' & E' & V).
   rewrite E in E'. injection E' as <-. exact (L_sanitize_keeps_valid o V).
 Qed.
